@@ -12,10 +12,37 @@ def replay_witness(run, k):
         out = replay.native_calls(run.program.repo, [dict(func=w['function'], args=w['args'])])[0]
         if 'expect_exc' in w:
             return (not out['ok']) and out['exc'].startswith(w['expect_exc'])
+        if 'expect_expr' in w:
+            # a Python expression over the decoded native result (`result`) and arguments (`args`)
+            import math
+            if not out['ok']:
+                return False
+            return bool(eval(w['expect_expr'], {'result': plain(out['result']), 'args': plain(w['args']), 'math': math,
+                                                'abs': abs, 'len': len, 'all': all, 'any': any, 'range': range}))
         if w.get('expect') == 'nan':
             import json as _j
             return out['ok'] and 'nan' in _j.dumps(out['result'])
         chk = replay.ConcreteChecker(run.program, w.get('contract', w['function']))
-        return bool(chk.check_ensures(w['args'], out))
+        return bool(replay.definite(chk.check_ensures(w['args'], out)))
     from . import creplay
     return creplay.replay_witness(run, k)
+
+
+def plain(v):
+    """tagged JSON -> plain Python (floats, lists, tuples)"""
+    if isinstance(v, dict):
+        if 'f' in v:
+            return float.fromhex(v['f']) if isinstance(v['f'], str) else float(v['f'])
+        if 't' in v:
+            return tuple(plain(x) for x in v['t'])
+        for k in ('l', 'a', 'n'):
+            if k in v:
+                return [plain(x) for x in v[k]]
+        if 'd' in v:
+            return {k: plain(x) for k, x in v['d'].items()}
+        if 'repr' in v or 'obj' in v or 'set' in v:
+            return v
+        return {k: plain(x) for k, x in v.items()}
+    if isinstance(v, list):
+        return [plain(x) for x in v]
+    return v
